@@ -112,11 +112,17 @@ type sessionFailure struct {
 const sessionSite = "registers.Field.Value (Fields / CalculateRegisterFields / NumberToFieldValue)"
 
 var (
+	keySizeReported bool
 	sessionFailures []sessionFailure
 	sessionsFailed  int
 )
 
 func flushSessionFailures(c *gal.Ctx) {
+	// fixed witness of the open finding about the size of the TXT.PUBLIC.KEY field
+	zk := registers.ParseTXTPublicKey([32]byte{})
+	zf := zk.Fields()
+	c.Probe("C04-TXTPublicKey-bitsize-wraps-to-0", zk.BitSize() == 0 && len(zf) == 1 && zf[0].BitSize == 0,
+		fmt.Sprintf("TXTPublicKey{}.BitSize() = %d, Fields() = %d field(s), first BitSize = %d: a 256-bit register whose field table covers %d bits", zk.BitSize(), len(zf), zf[0].BitSize, zf[0].BitSize))
 	for i, f := range sessionFailures {
 		if i < 3 {
 			c.OracleFail(f.idx, f.what, sessionSite, f.input)
@@ -251,6 +257,19 @@ func sessions(c *gal.Ctx, sp specFile, batch int) {
 					break
 				}
 				expect = [][]byte{append([]byte(nil), key[:]...)}
+				// "fields ... cover the register exactly once": the one field of the 256-bit register has to
+				// span 256 bits.  Field.BitSize and Register.BitSize() are uint8: uint8(32*8) = 0.
+				if len(fs) == 1 && (fs[0].BitOffset != 0 || int(fs[0].BitSize) != 256) {
+					if !keySizeReported {
+						keySizeReported = true
+						if fs[0].BitOffset == 0 && fs[0].BitSize == 0 && reg.BitSize() == 0 {
+							c.OracleFailKnown(-1, "C04-TXTPublicKey-bitsize-wraps-to-0", fmt.Sprintf("%s: the field table of the 256-bit register is one field of BitSize %d (BitSize() = %d): it covers no bit", what, fs[0].BitSize, reg.BitSize()),
+								"registers.TXTPublicKey.BitSize / Fields", map[string]interface{}{"register": "TXTPublicKey", "key": hex.EncodeToString(key[:])})
+						} else {
+							fail(&wrong, &wrongSteps, fmt.Sprintf("%s: the field table of the 256-bit register is one field at bit %d of BitSize %d", what, fs[0].BitOffset, fs[0].BitSize))
+						}
+					}
+				}
 				expectMeta = nil // name and size of the key field are not documented in a table
 			} else {
 				var cl call
